@@ -13,6 +13,7 @@
      RecvPlain    an UPDATE encoded the way the neighbour has to -> Adj-RIB-In
      RecvAddPath  an UPDATE whose NLRI carries a path identifier (per negotiated family)
      RecvBig      an UPDATE longer than 4096 octets
+     RecvBigKa    a KEEPALIVE longer than 4096 octets
    The C08_* invariants compare the recorded observation of the line just consumed with the
    PROPERTY layer of Negotiate, a function of (cfg, open) only. *)
 EXTENDS Negotiate, TraceUtil
@@ -38,7 +39,8 @@ Follows(e) ==
     [] e = "Negotiated"  -> cur.ev = "Handshake" /\ cur.obs.out = "established"
     [] e = "Export"      -> cur.ev = "Negotiated"
     [] e = "Timers"      -> cur.ev = "Export"
-    [] e \in {"RecvPlain", "RecvAddPath", "RecvBig"} -> cur.ev \in {"Timers", "RecvPlain", "RecvAddPath", "RecvBig"}
+    [] e \in {"RecvPlain", "RecvAddPath", "RecvBig", "RecvBigKa"} ->
+         cur.ev \in {"Timers", "RecvPlain", "RecvAddPath", "RecvBig"}
 
 TStep(e) == /\ IsEvent(e) /\ Follows(e)
             /\ cur' = [ev |-> e, obs |-> Trace[l].obs]
@@ -48,7 +50,7 @@ TStep(e) == /\ IsEvent(e) /\ Follows(e)
 
 TraceNext == \/ TReset
              \/ \E e \in {"OpenSent", "Handshake", "Negotiated", "Export", "Timers",
-                          "RecvPlain", "RecvAddPath", "RecvBig"} : TStep(e)
+                          "RecvPlain", "RecvAddPath", "RecvBig", "RecvBigKa"} : TStep(e)
 TraceSpec == TraceInit /\ [][TraceNext]_tvars
 
 TraceConstraint == Hwm(l)
@@ -142,6 +144,8 @@ C08_ExtMsg ==
   /\ Is("RecvBig") => IF ExtMsg(cfg, open) THEN (EncodingRequired(Obs) => Installed(Obs, Obs.id))
                       ELSE /\ \A e \in Range(Obs.adjin) : e.pfx # Obs.pfx
                            /\ Obs.notif.seen /\ Obs.notif.code = 1 /\ Obs.notif.sub = 2
+  \* RFC 8654 4: the limit of OPEN and KEEPALIVE stays 4096 (RFC 4271 6.1: Bad Message Length)
+  /\ Is("RecvBigKa") => Obs.state = "down" /\ Obs.notif.seen /\ Obs.notif.code = 1 /\ Obs.notif.sub = 2
 
 (* peer type from the REAL remote AS: reported, and used on export (an external peer gets the
    local AS prepended and no LOCAL_PREF, an internal one the path as it is and LOCAL_PREF) *)
